@@ -218,6 +218,13 @@ def plan_for(prop, tier, seed):
         many = [bytes([0x41 + i // 16, 0x61 + i % 16]) for i in range(200)]
         P.add(Entry("bw_idx_u8", "bytewise", "standard", many, vtype="u8"), "T34")
         P.add(Entry("bw_idx_usize", "bytewise", "standard", base, vtype="usize"), "T34")
+        # bare patterns whose positions do NOT all fit the value type (260 > u8::MAX + 1, 130 > i8::MAX + 1): the build must fail
+        # (InvalidConversion; recorded as "did not build").  If a tree builds them, every value reported for the positions
+        # that do not fit is wrong by definition: T34 refutes it through OUT_REPR.
+        over = [bytes([0x41 + i // 16, 0x61 + i % 16]) for i in range(260)]
+        P.add(Entry("bw_idx_u8_over", "bytewise", "standard", over, vtype="u8"), "T34")
+        P.add(Entry("bw_idx_i8_over", "bytewise", "standard", over[:130], vtype="i8"), "T34")
+        P.add(Entry("cw_idx_u8_over", "charwise", "standard", [p.decode() for p in over], vtype="u8"), "T34")
         P.add(Entry("bw_val_lm", "bytewise", "longest", base, vtype="i64", values=[0, 2 ** 64 - 1, 7, 7, 9]), "T34")
         P.add(Entry("bw_val_lf", "bytewise", "first", base, vtype="u16", values=[0, 65535, 7, 7, 9]), "T34")
         P.add(bw("find_reset", suffix="_ev"), "E:m=ovl,L=2")
@@ -353,6 +360,13 @@ def plan_for(prop, tier, seed):
             P.add(Entry("cw_blocks_n%d" % n, "charwise", "standard", cwset, nfb=n), *fams)
         P.add(Entry("cw_abcdef3_n16", "charwise", "standard",
                     [a + b + c for a in "abcdef" for b in "abcdef" for c in "abcdef"]), *fams)
+        # the statistics must not depend on the value type: zero-sized, 1-byte and 16-byte values change the size of an
+        # output record (8 / 12 / 32 bytes) but not what the states need
+        # (two 120-byte patterns over distinct bytes: 241 states in one 256-slot block, so the 12-bytes-per-state bound is tight)
+        long2 = [bytes(range(1, 121)), bytes(range(130, 250))]
+        for t in ("Empty", "u8", "u128"):
+            P.add(Entry("bw_stat_%s" % t.lower(), "bytewise", "standard", long2, vtype=t), "T6")
+            P.add(Entry("cw_stat_%s" % t.lower(), "charwise", "standard", corpus.cw_fixed()["w123"], vtype=t), "T6")
         for kind in ("longest", "first"):
             P.add(bw("hard_lm", kind), *fams)
             P.add(cw("w123", kind), *fams)
@@ -392,5 +406,7 @@ U_SER_QUICK = U_SER_ALL
 
 S_LAZY_ALL = ["s_lazy::bw_find", "s_lazy::bw_overlapping", "s_lazy::bw_no_suffix",
               "s_lazy::cw_find", "s_lazy::cw_overlapping", "s_lazy::cw_no_suffix"]
-S_LAZY_QUICK = list(S_LAZY_ALL)
+S_OWN = ["s_lazy::bw_owned_find", "s_lazy::bw_owned_overlapping", "s_lazy::bw_owned_no_suffix"]
+S_LAZY_QUICK = list(S_LAZY_ALL) + S_OWN
+S_LAZY_ALL = S_LAZY_ALL + S_OWN
 S_LAZY_ALL = S_LAZY_ALL + ["s_lazy::bw_overlapping_full", "s_lazy::cw_overlapping_full"]
